@@ -253,6 +253,11 @@ def errors_oneshot(ctx, plat_):
     if not (isinstance(a0, int) and not isinstance(a0, bool) and a0 == pid):
         ctx.reach("system-wide-native-failure")
         return
+    if calls[0] in ("proc_oneshot_info", "proc_kinfo_oneshot"):
+        # the method made no native call of its own before the error translation probed the process status (NetBSD exe() reads a
+        # procfs link): the injected failure hit the probe itself, which says nothing about the contract
+        ctx.reach("failure-hit-the-status-probe")
+        return
     if (plat_, m, "ESRCH") in SPECIAL:
         ctx.prove(isinstance(exc, (pkg.ZombieProcess, pkg.NoSuchProcess)) and exc.pid == pid, "documented-special-case", detail=info)
         return
@@ -279,7 +284,7 @@ def c_slot_comments(path, func, branch=None):
 BSD_SEM = {  # semantic name -> the C comment that documents the slot
     "ppid": "ppid", "status": "status", "real_uid": "real uid", "effective_uid": "effective uid", "saved_uid": "saved uid", "real_gid": "real gid", "effective_gid": "effective gid",
     "saved_gid": "saved gid", "ttynr": "tty nr", "create_time": "create time", "ctx_vol": "ctx switches (voluntary)", "ctx_unvol": "ctx switches (unvoluntary)", "read_io": "read io count",
-    "write_io": "write io count", "user_time": "user time", "sys_time": "sys time", "ch_user": "children utime", "ch_sys": "children stime", "rss": "rss", "vms": "vms", "memtext": "mem text",
+    "write_io": "write io count", "user_time": "user time", "sys_time": "sys time", "ch_user": ("children utime", "ch utime"), "ch_sys": ("children stime", "ch stime"), "rss": "rss", "vms": "vms", "memtext": "mem text",
     "memdata": "mem data", "memstack": "mem stack", "cpunum": "the CPU we are on",
 }
 
@@ -293,9 +298,10 @@ def bsd_slots(ctx, plat_):
         raise HarnessError(f"could not read the slot comments of psutil_proc_oneshot_info: {comments}")
     slot = {}
     for sem, text in BSD_SEM.items():
-        if text not in comments:
+        alts = [t for t in ((text,) if isinstance(text, str) else text) if t in comments]      # the OpenBSD/NetBSD branch abbreviates two comments
+        if not alts:
             raise HarnessError(f"C comment {text!r} not found in {comments}")
-        slot[sem] = comments.index(text)
+        slot[sem] = comments.index(alts[0])
     n = len(comments) + 1                       # + the process name (py_name)
     vals = [ctx.int(f"s{i}", 1, 2**40) for i in range(n)]
     rec = list(vals)
